@@ -84,6 +84,11 @@ CHECKS = [
         "Programs of the generated core language only (host roles: int64 arithmetic/comparison/to_string, string append, write_line, exit); behaviour below SPS-low (assembly, AMD64, LLVM) is not executed - nothing to assemble or link with offline.",
         "translation validation: the compiler's actual SPS-low output is executed by a TLA+ reference machine in TLC and compared with the interpreter per program",
         "DESIGN.md §4 C19"),
+    chk("C20", "model_checking",
+        "spec/ZyCore.tla with Root = retint enumerates every closed computation of type Ret Int64 up to 9 tokens (thorough 11) over exactly the constructs the algebra translation supports (ret, do, functions and application, thunks and force, lets, data constructors and matches, pairs); TLC checks GenSound and TypeSafety and predicts the returned value. Each body is rendered (alternating fully annotated and lean) into one scaffold twice - plain, and as an `@[monadic]` block applied to `Ret` and the identity monad instance (return = ret, bind = run then continue) - the program compares both results and exits with them: the block must be accepted whenever the plain body is, both results must equal the reference semantics' value, and the translated block must never reach a stuck state.",
+        "Identity monad instance only (no second lawful instance yet); no host operations inside the block; data types are transparent global lets (a def-sealed type inside a monadic block is rejected by design: 'Cannot inline sealed abstract type').",
+        "TLA+ reference semantics model checked by TLC; spec->code replay of every enumerated body, plain vs @[monadic]-at-identity in one program",
+        "DESIGN.md §4 C20"),
 ]
 
 PENDING_REASON = "check not built yet (planned, see DESIGN.md)"
